@@ -51,7 +51,7 @@ Print Assumptions ingest_total_refuted_value_equal.
 
 Theorem meta_refresh_refuted :
   exists c n, st_wf c /\ wire_notif n = true /\
-    snd (ingest all_defects c n) = GOk /\ exists w, refresh (fst (ingest all_defects c n)) = Panic w.
+    snd (ingest all_defects c n) = GOk /\ exists w, refresh all_defects (fst (ingest all_defects c n)) = Panic w.
 Proof. exact meta_refresh_refuted_lemma. Qed.
 Print Assumptions meta_refresh_refuted.
 
@@ -105,13 +105,38 @@ Proof. exact rejected_all_preserves_gen. Qed.
 Print Assumptions rejected_all_preserves.
 
 (** 1'. The periodic metadata refresh (Cache.UpdateMetadata reading back the
-    leaves under meta/) never panics in a state reached through patched ingest:
-    [st_wf2] (st_wf + every leaf at meta/<registered name> holds the asserted
-    kind) holds initially, is preserved, and implies [refresh = Ok]. *)
+    registered leaves under meta/).
+    (a) With checked assertions (patch C12_5) it cannot panic, whatever is stored. *)
 Theorem refresh_total :
-  forall c, st_wf2 c -> refresh c = Ok tt.
-Proof. exact refresh_total_lemma. Qed.
+  forall fl c, f_refresh fl = false -> refresh fl c = Ok tt.
+Proof. exact refresh_total_patched. Qed.
 Print Assumptions refresh_total.
+
+(** (b) Without the server-name and latency options the type guards at ingest
+    already suffice, even with unchecked assertions: [st_wf2] (st_wf + every
+    leaf at meta/<registered name> holds the asserted kind) holds initially, is
+    preserved by patched ingest, and implies [refresh = Ok]. *)
+Theorem refresh_total_default_options :
+  forall fl c, f_server_name fl = false -> f_latency fl = false -> st_wf2 c -> refresh fl c = Ok tt.
+Proof. exact refresh_total_lemma. Qed.
+Print Assumptions refresh_total_default_options.
+
+(** (c) With the options and unchecked assertions (HEAD before C12_5, every
+    other patch in) a target crashes the refresh through meta/serverName and,
+    once a latency sample exists, through meta/latency/window/<w>/<stat>. *)
+Theorem meta_refresh_refuted_server_name :
+  exists c n, st_wf c /\ wire_notif n = true /\
+    snd (ingest head_flags_opts c n) = GOk /\
+    exists w, refresh head_flags_opts (fst (ingest head_flags_opts c n)) = Panic w.
+Proof. exact TotalProofs.meta_refresh_refuted_server_name. Qed.
+Print Assumptions meta_refresh_refuted_server_name.
+
+Theorem meta_refresh_refuted_latency :
+  exists c n, st_wf c /\ wire_notif n = true /\
+    snd (ingest head_flags_opts c n) = GOk /\
+    exists w, refresh head_flags_opts (fst (ingest head_flags_opts c n)) = Panic w.
+Proof. exact TotalProofs.meta_refresh_refuted_latency. Qed.
+Print Assumptions meta_refresh_refuted_latency.
 
 Theorem refresh_wf_initial :
   forall names, ~ In ""%string names -> st_wf2 (new_cstate names).
